@@ -32,6 +32,9 @@ class FuncGen(object):
         self.pmethod = 0.5    # probability of the method form (a).sum() / (a).dot(b) / (a).T of a structural primitive
         self.pscaled = 0.25   # probability that a leaf is a scaled input (c * x) rather than a bare name
         self.cuts = (0.3, 0.6, 0.85)   # cumulative probabilities of unary / binary / structural (rest: leaf)
+        # hi: functions with higher-order stationary points (cubes, nested squares, products, differences): at
+        # degenerate points (zeros, equal entries) structurally nonzero derivatives vanish to second or higher order
+        self.hi = False
 
     def pick(self, seq):
         return seq[int(self.rng.integers(len(seq)))]
@@ -72,11 +75,24 @@ class FuncGen(object):
         return v
 
     def unary(self, shape, d):
-        f = self.pick(['sin', 'cos', 'tanh', 'exp', 'sq', 'sq'])
+        f = self.pick(['sin', 'tanh', 'cos', 'exp', 'sq', 'sq', 'cube', 'cube', 'cube', 'dcube', 'dcube'] if self.hi else
+                      ['sin', 'cos', 'tanh', 'exp', 'sq', 'sq'])
+        if f == 'dcube':
+            # cube of a difference of two inputs (or of an input and the default value 1.0): stationary where the
+            # entries are equal / at the default values
+            self.prims.add(f)
+            a = self.var(shape)
+            b = '1.0' if self.rng.random() < 0.3 else self.var(shape)
+            if b == a:
+                others = [n for n, s_ in self.inputs.items() if s_ == tuple(shape) and n != a]
+                b = self.pick(others) if others else '1.0'
+            return '(%s - %s) ** 3' % (a, b)
         a = self.expr(shape, d - 1)
         self.prims.add(f)
         if f == 'exp':
             return 'XP.exp(0.1 * (%s))' % a
+        if f == 'cube':
+            return '(%s) ** 3' % a
         if f == 'sq':
             return '(%s) ** 2' % a
         return 'XP.%s(%s)' % (f, a)
@@ -89,7 +105,7 @@ class FuncGen(object):
             self.prims.add('broadcast')
         else:
             b = self.expr(shape, d - 1)
-        op = self.pick(['*', '*', '+', '-'])
+        op = self.pick(['*', '*', '*', '-', '-', '+'] if self.hi else ['*', '*', '+', '-'])
         self.prims.add('mul' if op == '*' else 'add')
         return '(%s %s %s)' % (a, op, b)
 
@@ -149,6 +165,51 @@ class FuncGen(object):
             return self.dotform() % (self.expr((r_, m), d), self.expr((m, c_), d))
         return '(%s * XP.reshape(%s, (%d, 1)))' % (self.expr((r_, c_), d), self.expr((r_,), d), r_)
 
+    def stationary(self, shape):
+        """(expression, input names used): elementwise form whose derivative with respect to its inputs vanishes to
+        second or higher order where the inputs are zero / equal to each other / at the default value 1.0, and which
+        is the ONLY dependence of the result on these inputs (the jacobian entries themselves vanish there)."""
+        shape = tuple(shape)
+        a = self.var(shape)
+
+        def other(*used):
+            others = [n for n, s_ in self.inputs.items() if s_ == shape and n not in used]
+            if others and (len(self.inputs) >= self.max_inputs or self.rng.random() < 0.5):
+                return self.pick(others)
+            if len(self.inputs) < self.max_inputs:
+                name = 'x%d' % len(self.inputs)
+                self.inputs[name] = shape
+                return name
+            return None
+        k = self.pick(['cube', 'dcube', 'dcube', 'quart', 'prod3', 'sin3', 'tanhd3', 'cubecos', 'dquart'])
+        self.prims.add('stationary-' + k)
+        used = [a]
+        if k == 'cube':
+            e = '(%s) ** 3' % a
+        elif k == 'quart':
+            e = '((%s) ** 2) ** 2' % a
+        elif k == 'sin3':
+            e = 'XP.sin(%s) ** 3' % a
+        else:
+            b = other(a)
+            if b is None or (k == 'dcube' and self.rng.random() < 0.3):
+                b = None
+            if k in ('dcube', 'tanhd3', 'dquart'):
+                d = '%s - %s' % (a, b or '1.0')
+                e = {'dcube': '(%s) ** 3', 'tanhd3': 'XP.tanh(%s) ** 3', 'dquart': '((%s) ** 2) ** 2'}[k] % d
+            elif k == 'cubecos':
+                e = '(%s) ** 3 * XP.cos(%s)' % (a, b or a)
+            else:
+                c = other(a, b) if b else None
+                e = '(%s * %s) * %s' % (a, b or a, c or a)
+                if c:
+                    used.append(c)
+            if b:
+                used.append(b)
+        if self.rng.random() < 0.4:
+            e = '%s * %s' % (self.lit(), e)
+        return e, used
+
     def expr(self, shape, d):
         shape = tuple(shape)
         if d <= 0:
@@ -164,25 +225,37 @@ class FuncGen(object):
 
 
 def gen_explicit(rng, nout=None, depth=None, with_static=False, max_inputs=3, elementwise_bias=0.4, lite=False,
-                 methods=False):
+                 methods=False, hiorder=False):
     """Description of an explicit function: inputs (name->shape), outputs (name->shape), body lines.
     methods: structural primitives in method form on compound receivers ((0.5 * a).dot(b), (2.0 * a).T, ...): the
     style that a source-level dependency analysis has to see through."""
     g = FuncGen(rng, max_inputs=max_inputs)
     if methods:
         g.pmethod, g.pscaled, g.cuts = 1.0, 1.0, (0.15, 0.3, 0.9)
+    if hiorder:
+        g.hi, g.cuts = True, (0.4, 0.75, 0.88)
     if with_static:
         g.static = 'kopt'
     nout = nout or int(g.pick(LITE['nouts'] if lite else [1, 1, 2, 2, 3]))
     outs, lines = {}, []
     for k in range(nout):
-        d = depth or int(g.pick(LITE['depths'] if lite else [1, 2, 2, 3]))
+        d = depth or int(g.pick([2, 2, 3] if hiorder else LITE['depths'] if lite else [1, 2, 2, 3]))
         if rng.random() < elementwise_bias and g.inputs:
             # same shape as an existing input: gives (block-)diagonal sub-jacobians worth coloring
             shape = g.pick(list(g.inputs.values()))
         else:
             shape = g.pick(LITE['shapes'] if lite else SHAPES)
-        e = g.expr(shape, d)
+        if hiorder and rng.random() < 0.55:
+            e, used = g.stationary(shape)
+            free = [n for n, s_ in g.inputs.items() if s_ == tuple(shape) and n not in used]
+            if not free and len(g.inputs) < max_inputs:
+                free = ['x%d' % len(g.inputs)]
+                g.inputs[free[0]] = tuple(shape)
+            if free and rng.random() < 0.8:
+                # a term of order one in another input next to the vanishing derivatives
+                e = '%s + %s * %s' % (e, g.lit(), g.pick(free))
+        else:
+            e = g.expr(shape, d)
         outs['y%d' % k] = tuple(shape)
         lines.append('y%d = %s' % (k, e))
     if with_static and not any('kopt' in ln for ln in lines):
@@ -191,12 +264,15 @@ def gen_explicit(rng, nout=None, depth=None, with_static=False, max_inputs=3, el
             'lines': lines, 'static': g.static, 'prims': sorted(g.prims)}
 
 
-def gen_implicit(rng, nstate=None, depth=None, with_static=False, max_inputs=3, lite=False, methods=False):
+def gen_implicit(rng, nstate=None, depth=None, with_static=False, max_inputs=3, lite=False, methods=False,
+                 hiorder=False):
     """Residuals r_i = c_i*s_i + 0.3*sin(s_i) [+ 0.2*coupling] - g_i(inputs): diagonally dominant in the
     states, so a Newton solve converges and the implicit-function-theorem totals are well conditioned."""
     g = FuncGen(rng, max_inputs=max_inputs)
     if methods:
         g.pmethod, g.pscaled, g.cuts = 1.0, 1.0, (0.15, 0.3, 0.9)
+    if hiorder:
+        g.hi, g.cuts = True, (0.4, 0.75, 0.88)
     if with_static:
         g.static = 'kopt'
     nstate = nstate or int(g.pick(LITE['nstates'] if lite else [1, 1, 2]))
@@ -205,14 +281,18 @@ def gen_implicit(rng, nstate=None, depth=None, with_static=False, max_inputs=3, 
         shape = g.pick(LITE['state_shapes'] if lite else [(), (2,), (3,), (2, 2)])
         states['s%d' % k] = tuple(shape)
     for k, (s, shape) in enumerate(states.items()):
-        d = depth or int(g.pick(LITE['state_depths'] if lite else [1, 2, 2]))
-        gi = g.expr(shape, d)
+        d = depth or int(g.pick([2, 2, 3] if hiorder else LITE['state_depths'] if lite else [1, 2, 2]))
+        gi = g.stationary(shape)[0] if hiorder and rng.random() < 0.55 else g.expr(shape, d)
         c = round(float(rng.uniform(2.0, 3.5)), 2)
         line = 'r%d = %r * %s + 0.3 * XP.sin(%s)' % (k, c, s, s)
         others = [o for o in states if o != s]
         if others and rng.random() < 0.7:
             o = g.pick(others)
-            line += ' + 0.2 * XP.tanh(XP.sum(%s))' % o
+            if hiorder and rng.random() < 0.5:
+                # vanishes to second order at o = 0; |d/do| <= 0.15 * max t^2 (1 - t^2) < 0.04 per entry
+                line += ' + 0.05 * XP.tanh(XP.sum(%s)) ** 3' % o
+            else:
+                line += ' + 0.2 * XP.tanh(XP.sum(%s))' % o
             g.prims.add('state-coupling')
         line += ' - (%s)' % gi
         lines.append(line)
